@@ -191,3 +191,55 @@ pub fn float_sign_rule(cx: &mut Ctx, rule: &str, rel: &str, owner: &str, fname: 
         cx.fail(rule, &format!("{}/{}", rule, fname), &src.loc(f), &format!("{}::{} decides the minus sign wrongly: {}", owner, fname, bad.join("; ")));
     }
 }
+
+
+/// G2 / S2: two facts about floats formatted through FormatSpec that Python guarantees.
+pub fn float_spec_corner_cases(cx: &mut Ctx, rule: &str) {
+    cx.rule(rule, "(a) a float formatted with a precision but no presentation type never looks like an integer: in the fixed-notation branch of float::format_general a result without a decimal point gets `.0` when the caller asked for it (the fifth parameter, passed as `true` only by FormatSpec::format_float's no-type arm) — `format(5.0, '.3')` is `5.0`; (b) thousands separators are applied to finite values only: in FormatSpec::format_float the call of add_magnitude_separators is guarded by a finiteness test of the number — `format(inf, '010,')` is `0000000inf`");
+    cx.floor(rule, 3);
+    // (a)
+    match sm::load(&cx.repo, "literal/src/float.rs") {
+        Ok(fl) => match fl.free_fns("format_general").into_iter().next() {
+            Some(f) => {
+                let flag = f.sig.inputs.iter().nth(4).and_then(|a| if let syn::FnArg::Typed(pt) = a { Some(sm::tsc(&pt.pat)) } else { None }).unwrap_or_default();
+                let t = sm::tsc(&f.block);
+                // `if <.. flag .. !X.contains('.') ..> { format!("{X}.0") }`
+                let re = regex::Regex::new(r#"if([^{}]*)\{format!\("\{(\w+)\}\.0"\)\}"#).unwrap();
+                let ok = re.captures_iter(&t).any(|c| c[1].contains(&flag) && !flag.is_empty() && c[1].contains(&format!("!{}.contains('.')", &c[2])));
+                if ok {
+                    cx.ok(rule, &format!("format_general: under `{}` a fixed-notation result without a point gets `.0`", flag));
+                } else {
+                    cx.fail(rule, &format!("{}/dot-zero", rule), &fl.loc(f), "format_general does not append `.0` to a fixed-notation result without a decimal point when its caller asks for a fractional part: format(5.0, '.3') renders as `5`");
+                }
+            }
+            None => cx.anchor_missing(rule, "float::format_general"),
+        },
+        Err(e) => cx.anchor_missing(rule, &e),
+    }
+    match sm::load(&cx.repo, "format/src/format.rs") {
+        Ok(src) => match src.method("FormatSpec", "format_float") {
+            Some(f) => {
+                let param = f.sig.inputs.iter().nth(1).and_then(|a| if let syn::FnArg::Typed(pt) = a { Some(sm::tsc(&pt.pat)) } else { None }).unwrap_or_else(|| "num".into());
+                let t = sm::tsc(&f.block);
+                // the no-type arm passes `true`
+                let arm_ok = regex::Regex::new(r"Some\(precision\)=>Ok\(float::format_general\(precision,\w+,Case::Lower,self\.alternate_form,true\)\)").unwrap().is_match(&t);
+                if arm_ok {
+                    cx.ok(rule, "format_float: the no-type arm asks format_general for a fractional part");
+                } else {
+                    cx.fail(rule, &format!("{}/no-type-arm", rule), &src.loc(f), "FormatSpec::format_float's arm for a precision without presentation type does not call format_general(.., true)");
+                }
+                // (b) every call of add_magnitude_separators sits under a finiteness test of the number
+                let exits_guard = regex::Regex::new(&format!(r"if(?:{p}|magnitude)\.is_finite\(\)\{{[^{{}}]*self\.add_magnitude_separators\(|if(?:{p}|magnitude)\.is_(?:infinite|nan)\(\)[^{{}}]*\{{[^{{}}]*\}}else\{{[^{{}}]*self\.add_magnitude_separators\(", p = regex::escape(&param))).unwrap();
+                let n_calls = t.matches("self.add_magnitude_separators(").count();
+                let n_guarded = exits_guard.find_iter(&t).count();
+                if n_calls >= 1 && n_guarded == n_calls {
+                    cx.ok(rule, "format_float: separators only for finite values");
+                } else {
+                    cx.fail(rule, &format!("{}/non-finite-grouping", rule), &src.loc(f), &format!("{} of {} add_magnitude_separators calls in FormatSpec::format_float are guarded by a finiteness test: `inf` / `nan` would be zero-extended and grouped like digits", n_guarded, n_calls));
+                }
+            }
+            None => cx.anchor_missing(rule, "FormatSpec::format_float"),
+        },
+        Err(e) => cx.anchor_missing(rule, &e),
+    }
+}
